@@ -2006,7 +2006,7 @@ static void DecodeSTM(Word Index) {
         ;
     else if (ThisPar) {
         WrError(ErrNum_ParNotPossible);
-    } else if (DecodeAdr(&ArgStr[1], MModImm)) {
+    } else if ((OpSize = Int16), DecodeAdr(&ArgStr[1], MModImm)) {
         WAsmCode[1]   = *AdrVals;
         ForcePageZero = True;
         if (DecodeAdr(&ArgStr[2], MModMem)) {
